@@ -262,3 +262,10 @@ Proof.
     rewrite skipn_app, Nat.sub_diag, skipn_all. reflexivity. }
   rewrite Hr in Ht. exact Ht.
 Qed.
+
+Lemma wrapped_okb_spec : forall ls wrapped,
+  wrapped_okb ls wrapped = true <-> wrapped = join_lines ls.
+Proof.
+  intros ls wrapped. unfold wrapped_okb. change (list_eqb N.eqb) with cps_eqb.
+  rewrite cps_eqb_spec. split; intros H; congruence.
+Qed.
